@@ -288,8 +288,14 @@ def run_check(prop, pid, tier, seed):
                         c_.dump = ()
                 run_harness(ctx.binary, cases, pid)
                 # --- T1: bit-exact agreement with the float instance of the model
-                t1 = coq_check_cases(cases, pid)
-                for c, r in zip(cases, t1):
+                # cases marked harness_only are too expensive for the list-based model (O(period) per ring update at periods
+                # beyond 2^16); they are run on the implementation only and judged by the property's predicate
+                t1cases = [c for c in cases if not (isinstance(c.meta, dict) and c.meta.get("harness_only"))]
+                ctx.stats["harness_only_cases"] = len(cases) - len(t1cases)
+                t1 = coq_check_cases(t1cases, pid)
+                for c in cases:
+                    c.t1 = 0
+                for c, r in zip(t1cases, t1):
                     c.t1 = r
                     if r != 0:
                         t1_bad.append(c)
